@@ -25,7 +25,7 @@ theorem skipAbbr_one (L pre : List String) (a t : String) (tl : List String) (hL
     (ha : IsAlpha a) (ht : hasOffsetChar t = true) : skipAbbr L pre.length = pre.length + 1 := by
   unfold skipAbbr
   rw [hL, drop_pre]
-  simp [List.takeWhile, alpha_noOffsetChar a ha, ht]
+  simp [List.takeWhile, alpha_isLetters a ha, offsetChar_not_letters t ht]
 
 theorem join_take_one (L pre : List String) (a : String) (tl : List String) (hL : L = pre ++ (a :: tl)) :
     String.join ((L.drop pre.length).take (pre.length + 1 - pre.length)) = a := by
